@@ -59,7 +59,7 @@ def rule_sort_axis(ctx):
     okk = False
     evf = run(ctx, fa, mode='fork')
     for p in ret_paths(evf):
-        for v in T.strip_phi(p.value):
+        for v in T.value_alts(p.value):
             if v[0] == 'call' and T.dotted(v[1]) == 'sorted' and T.kw(v, 'reverse') in (None, T.CONST_FALSE) and T.kw(v, 'key') is not None:
                 okk = True if okk is not None else None
             else:
@@ -178,8 +178,12 @@ def rule_dropna(ctx):
     # _isnan
     f = ctx.fn(MV + '_isnan')
     ev = run(ctx, f)
-    oki = any(p.value == ('call', ('attr', ('name', 'np'), 'isnan'), (P_('a'),), ()) for p in ret_paths(ev)) and \
-        any(p.value == T.mkcmp('==', P_('a'), P_('na')) for p in ret_paths(ev))
+    from ..rules import alternatives
+    na_is_nan = ('call', ('attr', ('name', 'np'), 'isnan'), (P_('na'),), ())
+    cases = [(v, tuple(p.guards) + tuple(g)) for p in ret_paths(ev) for v, g in alternatives(p.value)]
+    want_nan, want_eq = ('call', ('attr', ('name', 'np'), 'isnan'), (P_('a'),), ()), T.mkcmp('==', P_('a'), P_('na'))
+    oki = any(v == want_nan and (na_is_nan, True) in g for v, g in cases) and any(v == want_eq and (na_is_nan, False) in g for v, g in cases) \
+        and all(v in (want_nan, want_eq) for v, g in cases)
     if not oki:
         ctx.violated('R3', f, '_isnan', '_isnan(a, na) is np.isnan(a) for na=NaN and a == na otherwise')
 
@@ -219,7 +223,7 @@ def rule_fill(ctx):
         elif it == [True]:
             # the mask must have the array's shape for *every* sequence of values, the empty one included: np.any([...], axis=0) of an empty list is the
             # scalar False, which put() then takes for the label 0; an accumulation starting from an all-False mask of a's shape is what is needed
-            alts = T.strip_phi(v)
+            alts = T.value_alts(v)
             scalar_for_empty = any(x[0] == 'call' and T.dotted(x[1]) in ('np.any', 'np.logical_or.reduce') and x[2] and x[2][0][0] in ('comp', 'list') for x in alts)
             seeded = any(x[0] == 'call' and T.dotted(x[1]) in ('np.zeros', 'np.zeros_like', 'np.full', 'np.full_like') and T.contains(x, A) for y in alts for x in T.subterms(y))
             member = any(x[0] == 'call' and T.call_name(x) == '_matches' and x[2][:1] == (A,) and x[2][1][0] == 'elem' and x[2][1][1] == VAL for y in alts for x in T.subterms(y))
